@@ -230,6 +230,41 @@ def body_cache(case, rec):
             raise Violation(f"cache AGP: {msg}")
 
 
+def body_cache_write_error(case, rec):
+    """
+    A write of the index files FAILS part-way (disk full, quota): whatever `.agp` is then found beside the FASTA - by
+    this process or the next - still has to be a valid AGP of the whole file (the failure itself may be loud).
+    """
+    from vf import fsim
+
+    data = gen.fasta_bytes(case["fasta"])
+    recs = ref.read_fasta(data)
+    lengths = {r["name"]: len(r["seq"]) for r in recs if len(r["seq"])}
+    with fa.TempFasta(data) as path:
+        agp = path.with_name(path.name + ".agp")
+        with fsim.Sim(path.parent, keep=[path], chunk=case["chunk"]) as sim:
+            try:
+                FastaIndex(path).auto_load()
+            except Exception:  # noqa: BLE001
+                pass
+        steps = [j for j, (_s, what, _f) in enumerate(sim.log, 1) if what in ("flush", "close", "open-write")]
+        rec.note(case, len(steps) >= 3, {f"chunk_{case['chunk']}"})
+        for j in steps:
+            for f in path.parent.iterdir():
+                if f != path:
+                    f.unlink()
+            with fsim.Sim(path.parent, keep=[path], chunk=case["chunk"], crash_at=j, fault="oserror"):
+                try:
+                    FastaIndex(path).auto_load()
+                except Exception:  # noqa: BLE001
+                    pass
+            rec.count("write_errors_injected")
+            if agp.exists():
+                msg = ref.agp_validate(agp.read_text(), lengths)
+                if msg:
+                    raise Violation(f"a write error at file operation {j} ({sim.log[j - 1][1]} {sim.log[j - 1][2]}) left an invalid {agp.name} behind: {msg}")
+
+
 @st.composite
 def format_cases(draw):
     c = draw(c05.assembly_cases())
@@ -318,6 +353,9 @@ def huge_cases(tier, shard, nshards):
 
 
 SUBS = [
+    Sub("cache_write_error", kind="hyp", strategy=lambda: st.builds(lambda f, c: {"fasta": {"records": [r for r in f["records"] if not r[0].startswith("#")] or [["r1", "", "ACGTNNACGT", 60, "\n"]], "final_newline": f["final_newline"]}, "chunk": c},
+                                                              gen.fasta_file(max_records=3, min_len=1), st.sampled_from([7, 64, 8192])), body=body_cache_write_error,
+        budget={"quick": 160, "thorough": 3000}, desc="ENOSPC injected at every write step of the index files: an .agp left behind must still be valid and complete"),
     Sub("cache_long_lines", kind="enum", cases=long_line_cache_cases, body=body_cache,
         budget={"quick": 28, "thorough": 28}, desc=".agp cache of FASTA files with sequence lines of 64 KiB - 1.3 MiB"),
     Sub("format_huge", kind="enum", cases=huge_cases, body=body_format,
